@@ -2,6 +2,7 @@ import TinyFlux.Mirror.Getters
 import TinyFlux.Mirror.TagsNE
 import TinyFlux.Mirror.DbGetters
 import TinyFlux.Mirror.DbReindex
+import TinyFlux.Mirror.DbTagValues
 /-!
 # C07 over the translated source: the getters of `tinyflux/index.py`
 
@@ -78,6 +79,19 @@ theorem model_getters_are_the_models_step (s : State) (k : String) (m : Option S
     ∧ (s.step (.getFieldValues k m)).2 = .nums (modelFieldValues s.readOp k m)
     ∧ (s.step (.getTimestamps m)).2 = .times (modelTimestamps s.readOp m) :=
   model_getters_are_step s k m
+
+/-- `TinyFlux.get_tag_values(tag_keys, measurement)` of database.py as translated (index path: the translated index getter, each
+    value list sorted with `None` last; scan path: requested keys sorted and present even without values, every stored point of
+    the measurement contributing its requested tags): what the Model's `step` answers for `.getTagValues`
+    (`model_tag_values_is_the_models_step`) -/
+theorem translated_db_get_tag_values (norm : Point → Point) (g : DSelf) (hg : GWF g._index) (hne : TagsNE g._index._tags)
+    (keys : List String) (hk : keys.Nodup) (m : Option String) (hm : m ≠ some "") :
+    DatabaseImpl.get_tag_values g keys m = .ok (modelTagValues (absDB norm g) keys m) :=
+  db_get_tag_values_ok norm g hg hne keys hk m hm
+
+theorem model_tag_values_is_the_models_step (s : State) (keys : List String) (m : Option String) :
+    (s.step (.getTagValues keys m)).2 = .tagVals (modelTagValues s.readOp keys m) :=
+  model_tag_values_is_step s keys m
 
 /-- `TinyFlux.all(sorted)` as translated: every stored row, in a stable time order when asked for — and that is what the
     Model's `step` answers for `.all sorted` -/
